@@ -265,6 +265,9 @@ func checkProc13(i int, p ProcSpec, res ProcResult) *Violation {
 	if res.Crash != "" {
 		return viol13("cli-panic", frameFunc(res.CrashAt), "`jd %s` panicked: %s (at %s); a real process would print a Go stack trace and exit 2", strings.Join(p.Argv, " "), res.Crash, res.CrashAt)
 	}
+	if res.Runaway {
+		return viol13("no-termination", wh, "`jd %s` was still making I/O calls after %d of them: it does not terminate", strings.Join(p.Argv, " "), len(res.Steps))
+	}
 	if res.Killed {
 		return nil
 	}
